@@ -1081,7 +1081,7 @@ func (e *stageExec) do1(op []string) string {
 		ans := n == 1
 		if ans {
 			e.oracleReceived(name, unesc(op[4]), b, en)
-		} else if lt, ok := e.oldLogged[name+"|"+e.realHash(unesc(op[4]))+"|"+unesc(op[2])]; ok && lt >= ft.Unix() && lt >= time.Now().Unix()-29*86400 {
+		} else if lt, ok := e.oldLogged[name+"|"+e.realHash(unesc(op[4]))+"|"+unesc(op[2])]; ok && lt >= ft.Unix() && lt >= time.Now().Unix()-29*86400 && !e.otherVersionSeen(name, unesc(op[4])) {
 			// C05: a delivery known from the log (not older than the announced file) must be remembered
 			e.fails = append(e.fails, fmt.Sprintf("received-forgot-delivery: %s (%s) was delivered and logged by an earlier run, but the query answers 'not received'", name, unesc(op[4])))
 		}
@@ -1132,7 +1132,7 @@ func (e *stageExec) do1(op []string) string {
 		}
 		if n < len(qs) {
 			x := qs[n]
-			if lt, ok := e.oldLogged[x.name+"|"+e.realHash(x.tok)+"|"+x.renamed]; ok && lt >= x.ft.Unix() && lt >= time.Now().Unix()-29*86400 {
+			if lt, ok := e.oldLogged[x.name+"|"+e.realHash(x.tok)+"|"+x.renamed]; ok && lt >= x.ft.Unix() && lt >= time.Now().Unix()-29*86400 && !e.otherVersionSeen(x.name, x.tok) {
 				e.fails = append(e.fails, fmt.Sprintf("received-forgot-delivery: %s (%s) was delivered and logged by an earlier run, but the query answers 'not received'", x.name, x.tok))
 			}
 		}
@@ -1315,6 +1315,18 @@ func (e *stageExec) scanFinal() {
 		}
 		return nil
 	})
+}
+
+// otherVersionSeen: a version of name other than tok arrived in this case. The receiver's cache is keyed by name:
+// once a newer version is in the pipeline an older delivery of that name is no longer "the" file of that name,
+// and a version that comes back after a different one counts as a new delivery (same rule as oracleOnce).
+func (e *stageExec) otherVersionSeen(name, tok string) bool {
+	for t := range e.versions[name] {
+		if t != tok {
+			return true
+		}
+	}
+	return false
 }
 
 // oracleReceived: C09 — a part reported as received must be on disk byte for byte (checked
